@@ -1,0 +1,28 @@
+//go:build verif
+
+package alloc
+
+import (
+	"sync/atomic"
+	"syscall"
+)
+
+// verifFailFn, when set, is asked before every allocation whether it should
+// fail, so that the verification harness can exercise the error path of
+// Alloc (mmap refused) deterministically.
+var verifFailFn atomic.Value // func(size int) bool
+
+// VerifSetFailAlloc installs the decision function (nil: never fail).
+func VerifSetFailAlloc(f func(size int) bool) {
+	if f == nil {
+		f = func(int) bool { return false }
+	}
+	verifFailFn.Store(f)
+}
+
+func verifFailAlloc(size int) error {
+	if f, ok := verifFailFn.Load().(func(int) bool); ok && f != nil && f(size) {
+		return syscall.ENOMEM
+	}
+	return nil
+}
